@@ -206,7 +206,7 @@ static L linv(const L &a)
     if (a.c.empty())
         throw NoOracle{"division by a series that vanishes to working precision"};
     if (a.v != 0)
-        g_lost += std::labs(a.v);
+        g_lost += 2 * std::labs(a.v); // s / x^v is only known to prec - v terms, and 1/x^v shifts again
     L r;
     r.v = -a.v;
     size_t n = a.c.size();
@@ -224,7 +224,7 @@ static L lpowi(const L &a, long n)
 {
     if (n < 0) {
         if (a.v != 0)
-            g_lost += std::labs(a.v) * (-n);
+            g_lost += std::labs(a.v) * (-n + 1);
         return lpowi(linv(a), -n);
     }
     if (n == 0) {
@@ -369,7 +369,7 @@ static L lpowq(const L &a, long p, long q, long N)
     if (a.v % q != 0)
         throw NoOracle{"Puiseux"};
     if (a.v != 0)
-        g_lost += std::labs(a.v) * (std::labs(p) + 1);
+        g_lost += 2 * std::labs(a.v) * (std::labs(p) + 1);
     Q r0;
     if (!qroot(a.c[0], (unsigned long)q, r0))
         throw NoOracle{"irrational root of the leading coefficient"};
